@@ -1,5 +1,6 @@
 import RQ.Driver.Proto
 import RQ.Spec.Abs
+import RQ.Model.Args
 /-! Engine `W`: whole `push` invocations -/
 namespace RQ.PushEngine
 open RQ RQ.Proto RQ.Push
@@ -63,32 +64,8 @@ def newInodes (before after : FS) : String :=
   let sorted := ps.foldr insertSorted []
   if sorted.isEmpty then "-" else ",".intercalate (sorted.map (·.2))
 
-structure Inv where
-  cfg : Cfg := {}
-  threads : Nat := 1
-  bad : Bool := false     -- argument combination the model does not understand
-
-def parseArgs : List String → Inv → Inv
-  | [], i => i
-  | "--threads" :: n :: r, i => parseArgs r { i with threads := natOf n }
-  | "--backup" :: x :: r, i | "-b" :: x :: r, i =>
-    if x == "always" then parseArgs r { i with cfg := { i.cfg with backup := .always } }
-    else if x == "never" then parseArgs r { i with cfg := { i.cfg with backup := .never } }
-    else if x == "onfail" then parseArgs r { i with cfg := { i.cfg with backup := .onfail } }
-    else { i with bad := true }
-  | "--backup-count" :: x :: r, i =>
-    if x == "all" then parseArgs r { i with cfg := { i.cfg with backupCount := none } }
-    else parseArgs r { i with cfg := { i.cfg with backupCount := some (natOf x) } }
-  | "-F" :: n :: r, i | "--fuzz" :: n :: r, i => parseArgs r { i with cfg := { i.cfg with fuzz := natOf n } }
-  | "--dry-run" :: r, i => parseArgs r { i with cfg := { i.cfg with dryRun := true } }
-  | "-a" :: r, i => parseArgs r { i with cfg := { i.cfg with goal := .all } }
-  | "-q" :: r, i | "-v" :: r, i | "-vv" :: r, i | "--mmap" :: r, i | "--stats" :: r, i => parseArgs r i
-  | "--color" :: _ :: r, i | "-A" :: _ :: r, i => parseArgs r i
-  | x :: r, i =>
-    if x.startsWith "-" then { i with bad := true }
-    else match x.toNat? with
-      | some n => parseArgs r { i with cfg := { i.cfg with goal := .count n } }
-      | none => parseArgs r { i with cfg := { i.cfg with goal := .upTo x.toUTF8.toList } }
+/-- the arguments of one invocation, through the option model -/
+def parseArgs (args : List String) (_ : Unit) : Args.Inv := Args.parse (Args.tokenize args) {}
 
 def sameFS (a b : FS) : Bool :=
   a.nodes.length == b.nodes.length && a.nodes.all (fun (k, n) => b.lookup k == some n)
@@ -96,7 +73,7 @@ def sameFS (a b : FS) : Bool :=
 def runInvs (fs : FS) : List String → List String
   | [] => []
   | a :: rest =>
-    let inv := parseArgs (if a == "-" then [] else a.splitOn " ") {}
+    let inv := parseArgs (if a == "-" then [] else a.splitOn " ") ()
     let (out, w) := push inv.cfg { fs := fs }
     let r := s!"exit={out.exit};tree={renderTree w.fs};newino={newInodes fs w.fs};same={boolS (sameFS fs w.fs)};twin=ok;outside=ok"
     r :: runInvs w.fs rest
@@ -132,7 +109,7 @@ specification says -/
 def specVerdict (fs0 : FS) (invs impl : List String) : String := Id.run do
   let mut fs := fs0
   for (a, r) in invs.zip impl do
-    let inv := parseArgs (if a == "-" then [] else a.splitOn " ") {}
+    let inv := parseArgs (if a == "-" then [] else a.splitOn " ") ()
     let sp := Spec.pushSpec inv.cfg fs
     let implTree := fieldOf r "tree"
     if fieldOf r "exit" != toString sp.exit then return s!"FAIL:exit(spec={sp.exit})"
@@ -145,7 +122,7 @@ specification) on the generated workspace — validates the theorem's statement,
 def absVerdict (fs0 : FS) (invs impl : List String) : String := Id.run do
   let mut fs := fs0
   for (a, r) in invs.zip impl do
-    let inv := parseArgs (if a == "-" then [] else a.splitOn " ") {}
+    let inv := parseArgs (if a == "-" then [] else a.splitOn " ") ()
     match plan inv.cfg fs with
     | .apply range =>
       match applyLoop fs inv.cfg range 0 {}, Abs.applyRange fs inv.cfg range 0 [] with
